@@ -25,7 +25,7 @@ ASSUMPTIONS = [
 ]
 REQUIRED_MONITORS = ["physical:gaussian", "physical:bosonic", "physical:fock-pure", "physical:fock-mixed",
                      "purity:gaussian", "purity:fock-pure", "photon-number:gaussian", "photon-number:fock-mixed",
-                     "loss-monotone:gaussian", "trace:fock-pure", "trace:fock-mixed"]
+                     "loss-monotone:gaussian", "trace:fock-pure", "trace:fock-mixed", "physical:fock(ket representation)"]
 
 
 def load():
@@ -39,8 +39,13 @@ def gen_case(rng, simrun, backend):
     fock = backend == "fock"
     n = int(rng.integers(1, 4)) if fock else int(rng.integers(1, 6))
     allow = {"fock": simrun.FOCK_OK, "gaussian": simrun.GAUSSIAN_OK, "bosonic": simrun.BOSONIC_OK}[backend]
+    keep_pure = fock and rng.random() < 0.5
+    if keep_pure:
+        allow = allow - set(simrun.PREPS) - {"LossChannel", "Gaussian"}
     spec = simrun.gen_program(rng, gen, n=n, small=fock, allow=allow,
-                              length=int(rng.integers(4, 16 if fock else 31)))
+                              length=int(rng.integers(4, 16 if fock else 31)), prefix=not keep_pure)
+    if keep_pure:
+        spec["cmds"] = simrun.pure_prefix(rng, n) + spec["cmds"]
     return {"spec": spec, "hbar": float(rng.choice([2.0, 2.0, 1.0, 0.5])), "backend": backend,
             "cutoff": 10 if n <= 2 else 7}
 
